@@ -224,6 +224,10 @@ func c08Kinds() []c08Kind {
 		// the texts tolerated from one client are plain rejections from another
 		c08Beh{name: "teku-target", client: "teku", errText: "POST failed with status 400: Attempt to send attestation for unknown target"},
 		c08Beh{name: "nimbus-behind", client: "Nimbus", errText: "POST failed with status 400: UnknownHeadBlock 0x1234"},
+		// one answer that lists a tolerated and a genuine failure (the node took neither attestation, one of them for
+		// good), and one that lists two tolerated ones
+		c08Beh{name: "lh-known+invalid", client: "Lighthouse", errText: `POST failed with status 400: {"code":400,"message":"BAD_REQUEST: error processing attestations","failures":[{"index":0,"message":"PriorAttestationKnown"},{"index":1,"message":"InvalidSignature"}]}`},
+		c08Beh{name: "lh-known+behind", client: "Lighthouse", errText: `POST failed with status 400: {"code":400,"message":"BAD_REQUEST: error processing attestations","failures":[{"index":0,"message":"PriorAttestationKnown"},{"index":1,"message":"UnknownHeadBlock 0x1234"}]}`, tolerated: true},
 		// the chunk with the payload's first attestation meets a server error, the other chunks a tolerated rejection: the
 		// node has not taken the payload
 		c08Beh{name: "lh-chunks-differ", client: "Lighthouse", firstChunkErr: "POST failed with status 500: internal error",
